@@ -52,6 +52,9 @@ def configs(tier, seed):
         for sx in subsets("abcd", min_size=2):
             for op in UNOPS:
                 out.append(dict(h="unop", op=op, key=f"unop/{op}/x={sx}/{lk}", sx=sx, lens=lens))
+            if len(sx) >= 3:
+                # the same reads with ascending integer items (years) in the dimension that is selected by a single item
+                out.append(dict(h="unop", op="read", key=f"unop/read/x={sx}/{lk}/int_items", sx=sx, lens=lens, int_items=True))
         for st in subsets("abc", min_size=1):
             for ss in subsets("abcd"):
                 if all(l in ss for l in st) and len(ss) <= len(st) + 1 and len(ss) >= 2:
@@ -112,6 +115,9 @@ def run(cfg, w):
     h = cfg["h"]
     lens = cfg["lens"]
     dims = {l: make_dim(l, n) for l, n in lens.items()}
+    if cfg.get("int_items"):
+        l_ = cfg["sx"][0]
+        dims[l_] = make_dim(l_, lens[l_], items=[2000 + i for i in range(lens[l_])], dtype=int)
     if h == "binop":
         sx, sy, op = cfg["sx"], cfg["sy"], cfg["op"]
         X = w.arr("x", tuple(lens[l] for l in sx))
